@@ -39,7 +39,7 @@ def run(ctx):
     ctx.rule("C17.numpy-sum-rejects", "numpy _reduce_sum raises ValueError for where / initial / out / dtype")
     ctx.rule("C17.numpy-count-nonzero", "numpy _reduce_count_nonzero: count_nonzero(rho2 != 0 | z != 0 | t2 != 0 by dimension, axis=axis, keepdims=keepdims)")
     ctx.rule("C17.numpy-routing", "__array_function__ routes numpy.sum / numpy.count_nonzero / isclose / allclose; VectorNumpy.sum forwards axis and keepdims to numpy.sum")
-    ctx.rule("C17.sum-method", "VectorNumpy.sum(axis=None, dtype=None, out=None, keepdims=False, initial=None, where=None) has numpy.sum's defaults and forwards every parameter by its own name to numpy.sum(self, ...): v.sum() and numpy.sum(v) are the same reduction")
+    ctx.rule("C17.sum-method", "_reduce_sum / _reduce_count_nonzero (what numpy.sum / numpy.count_nonzero are routed to) have the NumPy functions' defaults (axis=None, keepdims=False ...); VectorNumpy.sum(axis=None, dtype=None, out=None, keepdims=False, initial=None, where=None) has numpy.sum's defaults and forwards every parameter by its own name to numpy.sum(self, ...): v.sum() and numpy.sum(v) are the same reduction")
     _sum_method(ctx)
     ctx.rule("C17.awkward-sum", "awkward _reduce_sum: x, y[, z][, t] summed over axis=1, zipped with array.behavior and the operand's record name")
     ctx.rule("C17.awkward-count", "awkward _reduce_count counts the first field; _reduce_count_nonzero is rho2 != 0 | z != 0 | t2 != 0 over axis=1")
@@ -223,3 +223,15 @@ def _sum_method(ctx):
         if [_unparse(a) for a in c.args] != ["self"] or kws != {p_: p_ for p_ in params}:
             msg = f"forwards {[_unparse(a) for a in c.args]}, {kws}; expected (self, " + ", ".join(f"{p_}={p_}" for p_ in params) + ")"
     ctx.ob("C17.sum-method", "VectorNumpy.sum", not msg, msg, None, f"src/vector/backends/numpy.py:{fn.lineno}")
+    # the functions numpy.sum / numpy.count_nonzero are routed to: same defaults as the NumPy functions they stand for
+    for fname, want_f in (("_reduce_sum", {"axis": "None", "dtype": "None", "out": "None", "keepdims": "False", "initial": "None", "where": "None"}),
+                          ("_reduce_count_nonzero", {"axis": "None", "keepdims": "False"})):
+        f = nf.functions.get(fname)
+        if f is None:
+            raise AnalysisError(f"anchor {fname} missing")
+        names = [a.arg for a in f.args.args]
+        d = [_unparse(x) for x in f.args.defaults]
+        got_f = dict(zip(names[len(names) - len(d):], d))
+        got_f.update({a.arg: (_unparse(v) if v is not None else None) for a, v in zip(f.args.kwonlyargs, f.args.kw_defaults)})
+        ctx.ob("C17.sum-method", fname, got_f == want_f, f"defaults {got_f}; numpy.{'sum' if 'sum' in fname else 'count_nonzero'} has {want_f}", None,
+               f"src/vector/backends/numpy.py:{f.lineno}")
